@@ -45,3 +45,26 @@ Definition p_for : cstmts :=
 Example C05_if_for_examples :
   forallb (fun s => match verdict_of (cfg_insn 0) p_if s with Some Agree => true | _ => false end) [1; 2; 3; 4; 5; 6; 7; 8] = true.
 Proof. vm_compute. reflexivity. Qed.
+
+(* ------------------------------------------------------------------ the general theorem (proofs/StmtCorrect.v)
+   For EVERY behaviour of the statement fragment `sfrags` (assignments of pure expressions to destination registers and
+   to declared locals, += -= *= on locals, declarations with initialiser, memory stores, JUMP, `;`, blocks, if / if-else,
+   sequences of any length and nesting depth), with all repairs on: the WHOLE transformer (tlower_info: statement
+   lowering, final sequence, register finalisation) succeeds, leaves nothing over, drops nothing, and the emitted effect,
+   run from any IL state related to the C state, ends in an IL state related to the C state that ISO C prescribes:
+   effects in source order, branches under C's condition, every state, no bound.
+   Outside the fragment: re-declared names (this premise is exact: D29), declarations without initialiser, loops, register
+   reads / loads / calls / ++ in expressions (not in pfrag).  These stay decided per run (K2 + differential oracle). *)
+From RZ.proofs Require Import SeqLaws ExprCorrect StmtCorrect.
+Theorem C05_statements_correct_repaired :
+  forall (cfg : config) (rw : regwidth) (ilsubs : subenv) (E : cenv) (csub : csubs) xi prog V',
+  cfg_fx cfg = all_fixes -> cfg_params cfg = [] -> sfrags rw [] prog V' ->
+  exists eff, tlower_info cfg prog = OK (mkti eff (cfg_hstart cfg) 0 false []) /\
+    tlower cfg prog = OK (eff, cfg_hstart cfg) /\
+    forall cs ms fuel cs', srel [] cs ms -> cexecs E csub xi fuel cs prog = Some cs' ->
+      exists ms', runs rw ilsubs eff ms ms' /\ srel V' cs' ms'.
+Proof. exact tlower_correct. Qed.
+Print Assumptions C05_statements_correct_repaired.
+(* the fresh-name premise of the fragment is necessary: legal C with two disjoint scopes is mistranslated (D29, replayed on the real compiler) *)
+Example C05_fragment_inhabited : sfrags StmtCorrect.Example.rw [] StmtCorrect.Example.prog StmtCorrect.Example.Vx.
+Proof. exact StmtCorrect.Example.prog_in_fragment. Qed.
